@@ -697,6 +697,40 @@ Lemma header_words_builds : forall nocache ngc,
   header_words (cfg_build false nocache ngc) = 3%nat /\ header_words (cfg_build true nocache ngc) = 1%nat.
 Proof. intros. rewrite !header_words_char. split; reflexivity. Qed.
 
+(* ------------------------------------------------------------------ Part C2: del and owning destructors *)
+
+Lemma del_agrees_on_objects : forall c1 c2 a, del_model c1 (Some a) = del_model c2 (Some a).
+Proof. reflexivity. Qed.
+
+(* del(NULL) is where the builds part: nothing with the collector, ValueError / crash without *)
+Lemma del_null_differs :
+  del_model cfg_default None = DNothing /\
+  del_model (cfg_build false false true) None = DRaise XValueError /\
+  del_model (cfg_build true false true) None = DCrash.
+Proof. repeat split; reflexivity. Qed.
+
+Lemma guarded_owner_del_agrees : forall c1 c2 x, owner_del true c1 x = owner_del true c2 x.
+Proof. intros c1 c2 [a |]; reflexivity. Qed.
+
+(* Box_Del as the source has it *)
+Lemma box_del_agrees : forall c1 c2 x, owner_del cfg_box_del_guarded c1 x = owner_del cfg_box_del_guarded c2 x.
+Proof. exact guarded_owner_del_agrees. Qed.
+
+(* a container of owners (Array / List / Table / Tree of Box) destroyed element by element *)
+Lemma owners_del_agree : forall c1 c2 xs,
+  map (owner_del cfg_box_del_guarded c1) xs = map (owner_del cfg_box_del_guarded c2) xs.
+Proof. intros c1 c2 xs. apply map_ext. intro x. apply box_del_agrees. Qed.
+
+Lemma unguarded_owner_del_differs :
+  owner_del false cfg_default None <> owner_del false (cfg_build false false true) None /\
+  owner_del false cfg_default None <> owner_del false (cfg_build true false true) None.
+Proof. split; discriminate. Qed.
+
+Lemma del_forwards_audited :
+  forallb del_forward_ok cfg_del_forwards = true /\
+  list_eqb str4_eqb cfg_del_forwards audited_del_forwards = true.
+Proof. split; vm_compute; reflexivity. Qed.
+
 (* ------------------------------------------------------------------ Part D: collector transparency *)
 Lemma hget_upd : forall h a o x, hget (upd h a o) x = if Nat.eqb x a then Some o else hget h x.
 Proof. reflexivity. Qed.
